@@ -66,16 +66,16 @@ CLAIMED.update({
  "C09": _c("proof", "Theorems C09_stack_invariant / C09_dropped_pair_partial: the closing-tag stack is consulted safely on every token list; a non-void element dropped for lack of attributes is popped by exactly its own end tag, restoring stack, flag and skipping state. "
            "C09_output_balanced (induction over trees): for every forest in which every non-void element is opened and closed (script/style, void and self-closing tags included), every policy, the emitted items are well nested; C09_state_restored / C09_bracket: the loop state after a well-formed subtree is the state before it, so a removed start tag takes exactly its own end tag with it and a kept one keeps it. Partial: the parse of arbitrary bytes into a forest (tree construction not modelled): bounded-exhaustive loop correspondence and balance oracle.", "DESIGN.md section 5 C09", TIE_NOTE,
            "Coq invariant proof over the loop model + bounded-exhaustive correspondence + stack-balance oracle on generated trees"),
- "C13": _c("proof", "Theorems C13_rule_order_irrelevant_partial / C13_no_dependence_on_earlier_calls: in the model sanitising is a function of the policy value and the input, and the order in which pattern rules are merged is irrelevant. "
+ "C13": _c("proof", "Theorems C13_rule_order_irrelevant_partial / C13_no_dependence_on_earlier_calls: in the model sanitising is a function of the policy value and the input, and the order in which pattern rules are merged is irrelevant. C13_same_rules_same_bytes: policy values whose tables hold the same rules in any order and multiplicity (all that map iteration order can change) sanitize every input to the same bytes. "
            "Partial: data-race freedom and concurrent = sequential are runtime facts, validated by a race-detector stress run (16 goroutines per shared policy), not proved.", "DESIGN.md section 5 C13", TIE_NOTE,
            "Coq proof of order-independence over the model + Go race detector stress run comparing concurrent with sequential results"),
  "C14": _c("proof", "Theorems C14_no_panic / C14_entry_points_no_panic: the only panicking operation of the token loop is unreachable for every token list and policy; every model function is total. "
            "Partial: time is measured (adversarial size-parameterised families under a wall-clock budget), not proved.", "DESIGN.md section 5 C14", TIE_NOTE,
            "Coq invariant proof (no panic) + adversarial complexity sweep and panic hunting on the implementation"),
  "C17": _c("proof", "Theorems C17_rules_accumulate_partial / C17_rule_lists / C17_switch_last_setting / C17_skip_set_last_setting over Builder.apply. "
-           "Partial: order/case independence of whole histories is carried by the policy-dump correspondence (every table after every call on interleaved policies) and the behaviour oracle.", "DESIGN.md section 5 C17", TIE_NOTE,
+           "C17_order_of_rule_calls: two builder histories with the same switch-like calls in the same order and the same rule-adding calls (AllowAttrs/AllowStyles with any scope, AllowElements, AllowElementsMatching) in any order and interleaving build policies that sanitize every input to the same bytes (decomposition into primitive table updates, their commutation up to rule-set equality, and PolicyEquiv.peq_sanitize). Partial: letter-case independence is not a theorem; the policy-dump correspondence (every table after every call on interleaved policies) and the behaviour oracle cover it.", "DESIGN.md section 5 C17", TIE_NOTE,
            "Coq proof over the builder model + policy-state correspondence after every builder call + behavioural equivalence oracle"),
- "C20": _c("proof", "Theorems C20_escaping_not_applied_twice_partial / C20_rel_tokens_not_repeated: the three mechanisms the property names. C20_idempotent_if_attrs_stable: Sanitize(Sanitize(x)) = Sanitize(x) for every x and every policy without comments/raw-text elements whose attribute filter is idempotent on its own output; C20_strict (StrictPolicy) and C20_idempotent_plain_elements (policies whose elements carry no rewritten attribute) discharge that premise. Partial: the premise for URL / forced-attribute elements (UGCPolicy) is checked by the idempotence oracle on every case of the policy class.",
+ "C20": _c("proof", "Theorems C20_escaping_not_applied_twice_partial / C20_rel_tokens_not_repeated: the three mechanisms the property names. C20_idempotent_if_attrs_stable: Sanitize(Sanitize(x)) = Sanitize(x) for every x and every policy without comments/raw-text elements whose attribute filter is idempotent on its own output; C20_strict (StrictPolicy) and C20_idempotent_plain_elements (policies whose elements carry no rewritten attribute) discharge that premise. C20_refuted_forced_attr_order: the property as stated is false on the current tree (known finding F15: a policy allowing only one of rel/target and forcing both reorders them on the second pass); the witness is computed on the model and replayed. Partial: the premise for URL / forced-attribute elements otherwise (UGCPolicy) is checked by the idempotence oracle on every case of the policy class, link grid included.",
            "DESIGN.md section 5 C20", TIE_NOTE, "Coq proof of the component idempotence lemmas + differential correspondence + idempotence oracle"),
  "C18": _c("proof", "Theorems C18_regexps_inert / C18_regexps_whole_value / C18_strippers_anchored / C18_keywords_inert / C18_unknown_property: every regexp of css/handlers.go used as a value acceptor matches the whole value and accepts no hostile string (all lengths, by reflection on the regenerated ASTs); "
            "function-name strippers are anchored; keyword lists contain none of the characters every hostile value needs; the lookup falls back to reject-all. Partial: the composition of these blocks by the handlers' control flow is covered by the bounded-exhaustive search the property text describes (all 213 entries, hostile fragments at every position).",
